@@ -48,8 +48,10 @@ MANIFEST = {
 def _frames(repo, n=4):
     import mdtraj as md
     t = md.load(os.path.join(repo, "tests/data/2EQQ.pdb"))[:n]
-    t.unitcell_lengths = np.full((n, 3), 6.0) + 0.1 * np.arange(n)[:, None]
-    t.unitcell_angles = np.full((n, 3), 90.0)
+    # a hexagonal prism whose height changes from frame to frame while a and b stay the same, and which is short
+    # enough along c that some pairs are wrapped: a frame processed with another frame's cell gives other numbers
+    t.unitcell_lengths = np.column_stack([np.full(n, 6.0), np.full(n, 6.0), 2.6 + 0.35 * (np.arange(n) % 5)])
+    t.unitcell_angles = np.tile(np.array([90.0, 90.0, 120.0]), (n, 1))
     return t
 
 
@@ -69,7 +71,7 @@ def functions(ref):
     import mdtraj as md
     top = ref.topology
     ca = top.select("name CA")
-    pairs = np.array(list(itertools.combinations(ca[:8], 2)))
+    pairs = np.array(list(itertools.combinations(ca[:8], 2)) + [(ca[i], ca[-1 - i]) for i in range(8)])   # near and far pairs
     trip = np.array([ca[i:i + 3] for i in range(6)])
     quad = np.array([ca[i:i + 4] for i in range(6)])
     heavy = top.select("protein and not element H")[:60]
